@@ -40,6 +40,28 @@ func init() {
 // and returns a, b, c (the Div call must be on the Mul result itself).
 func bigMulDiv(fn *ssa.Function, v ssa.Value) (a, b, c ssa.Value, div *ssa.Call, ok bool) {
 	mul, isCall := v.(*ssa.Call)
+	// the quotient taken into a fresh big.Int: new(big.Int).Div(new(big.Int).Mul(a, b), c)
+	if isCall && calleeName(mul.Common()) == "(*math/big.Int).Div" {
+		r, da := callArgs(mul.Common())
+		if _, fresh := r.(*ssa.Alloc); fresh && len(da) == 2 {
+			if m, isM := da[0].(*ssa.Call); isM && calleeName(m.Common()) == "(*math/big.Int).Mul" {
+				_, ma := callArgs(m.Common())
+				// neither the product nor the quotient is updated in place anywhere else
+				for _, blk := range fn.Blocks {
+					for _, in := range blk.Instrs {
+						cl, isC := in.(*ssa.Call)
+						if !isC || cl == mul || cl == m || !strings.HasPrefix(calleeName(cl.Common()), "(*math/big.Int).") {
+							continue
+						}
+						if rr, _ := callArgs(cl.Common()); rr == ssa.Value(mul) || rr == ssa.Value(m) {
+							return nil, nil, nil, nil, false
+						}
+					}
+				}
+				return ma[0], ma[1], da[1], mul, true
+			}
+		}
+	}
 	if !isCall || calleeName(mul.Common()) != "(*math/big.Int).Mul" {
 		return
 	}
@@ -146,6 +168,14 @@ func runC35(c *Ctx) {
 		} else {
 			x, y, ok := bigBin(vr.Val, "Sub")
 			okSub := ok && y == cm.Val
+			if ok && !okSub {
+				// the commission read back from the field it was just stored to (same function, store dominates)
+				if ld, isLd := y.(*ssa.UnOp); isLd {
+					if fa, isFa := ld.X.(*ssa.FieldAddr); isFa && fieldName(fa.X.Type(), fa.Field) == "commission" && render(fa.X) == "$r" && dominatesInstr(cm, ld) {
+						okSub = true
+					}
+				}
+			}
 			c.check(okSub, "C35.prep-share", "voter reward = P-Rep reward − commission", vr.Pos(), "Sub(prepReward, commission)", "voterReward is "+render(vr.Val)+": the commission is not taken out of the amount shared by the voters")
 			if okSub {
 				a, b, w, _, okMD := bigMulDiv(fn, x)
